@@ -95,6 +95,8 @@ def document(cls, units, variant, numdepth=3):
                 s += ' x\\footnote{fqaz} \\begin{equation}a\\label{le0}\\end{equation}\\index{alpha}\\index{beta!sub} \\ref{li1}'
             if i == min(1, k - 1):
                 s += ' \\begin{enumerate}\\item x\\item\\label{li1} y\\end{enumerate} \\ref{le0}\\pageref{lb0}\\index{alpha}'
+            if i == k - 1:
+                s += ' z\\footnote{fqbz}\\index{\\_ua}\\index{\\_ub} \\begin{equation}c\\label{index}\\end{equation}\\ref{index}'
         parts.append(s + '\n\n')
     tail = ''
     if variant == 'full':
@@ -268,6 +270,10 @@ def run(tier, seed, rep):
         for units in c13.shapes('article', 2):
             if units:
                 blocks.append(('article', units, 'full', 'HTML5min', cfg_small))
+        for units in (('chapter', 'section', 'subsection'), ('section', 'subsection', 'subsubsection'),
+                      ('chapter', 'subsection', 'subsubsection')):
+            blocks.append(('book', units, 'full', 'HTML5', cfg_small))
+            blocks.append(('book', units, 'full', 'XHTML', cfg_small))
     else:
         for cls in ('book', 'article'):
             for units in c13.shapes(cls, 3):
